@@ -515,23 +515,37 @@ func (c *Ctx) heartBeatEveryBeat(ruleCreate, ruleClock string, ruleAfter ...stri
 	c.FuncsSeen[fname(hb)] = true
 	creating, stamping := 0, 0
 	var stamps []*ssa.Call
+	// the beat may have been moved into a helper of the package called from the loop: what the helper does, it does at every beat
+	helperOfTheLoop := map[*ssa.Function]bool{}
 	allInstrs(hb, func(in ssa.Instruction) {
-		cl, ok := in.(*ssa.Call)
-		if !ok || !cl.Call.IsInvoke() {
-			return
-		}
-		switch cl.Call.Method.Name() {
-		case "WriteFile", "WriteFileWithContext", "WriteToFile", "CreateFile", "OpenFile", "Touch":
-			if inLoop(cl) {
-				creating++
-			}
-		case "Chtimes":
-			if inLoop(cl) {
-				stamping++
-				stamps = append(stamps, cl)
+		if cl, ok := in.(*ssa.Call); ok && inLoop(cl) {
+			if g := staticCallee(&cl.Call); g != nil && inPkg(fsPkgRel)(g) && g.Blocks != nil {
+				helperOfTheLoop[g] = true
 			}
 		}
 	})
+	everyBeat := func(cl *ssa.Call) bool {
+		return (cl.Parent() == hb && inLoop(cl)) || helperOfTheLoop[cl.Parent()]
+	}
+	scan := func(g *ssa.Function) {
+		allInstrs(g, func(in ssa.Instruction) {
+			cl, ok := in.(*ssa.Call)
+			if !ok || !cl.Call.IsInvoke() || !everyBeat(cl) {
+				return
+			}
+			switch cl.Call.Method.Name() {
+			case "WriteFile", "WriteFileWithContext", "WriteToFile", "CreateFile", "OpenFile", "Touch":
+				creating++
+			case "Chtimes":
+				stamping++
+				stamps = append(stamps, cl)
+			}
+		})
+	}
+	scan(hb)
+	for g := range helperOfTheLoop {
+		scan(g)
+	}
 	c.check(creating > 0, ruleCreate, fname(hb)+"/every-beat-creates-the-file", c.pos(hb.Pos()), "a creating write of the heartbeat file lies in the loop",
 		"no beat (re)creates the heartbeat file: when its first creation fails (too many open files, an I/O error) or the file disappears, every later beat only sets the times of a file that is not there, ignores the answer, and the lock of a holder that is alive goes stale and is taken over")
 	bad := ""
@@ -542,7 +556,7 @@ func (c *Ctx) heartBeatEveryBeat(ruleCreate, ruleClock string, ruleAfter ...stri
 			}
 			for _, l := range sources(a, deriveOpts{}) {
 				cl, ok := l.(*ssa.Call)
-				if ok && calleeFull(&cl.Call) == "time.Now" && inLoop(cl) {
+				if ok && calleeFull(&cl.Call) == "time.Now" && everyBeat(cl) {
 					continue
 				}
 				bad = c.ipos(st) + " (operand from " + c.pos(l.Pos()) + ")"
@@ -554,14 +568,20 @@ func (c *Ctx) heartBeatEveryBeat(ruleCreate, ruleClock string, ruleAfter ...stri
 		// beat it has just made
 		late := ""
 		var writes []*ssa.Call
-		allInstrs(hb, func(in ssa.Instruction) {
-			if cl, ok := in.(*ssa.Call); ok && cl.Call.IsInvoke() && inLoop(cl) {
-				switch cl.Call.Method.Name() {
-				case "WriteFile", "WriteFileWithContext", "WriteToFile", "CreateFile", "OpenFile", "Touch":
-					writes = append(writes, cl)
+		collect := func(g *ssa.Function) {
+			allInstrs(g, func(in ssa.Instruction) {
+				if cl, ok := in.(*ssa.Call); ok && cl.Call.IsInvoke() && everyBeat(cl) {
+					switch cl.Call.Method.Name() {
+					case "WriteFile", "WriteFileWithContext", "WriteToFile", "CreateFile", "OpenFile", "Touch":
+						writes = append(writes, cl)
+					}
 				}
-			}
-		})
+			})
+		}
+		collect(hb)
+		for g := range helperOfTheLoop {
+			collect(g)
+		}
 		for _, st := range stamps {
 			for _, a := range st.Call.Args {
 				if !strings.HasSuffix(a.Type().String(), "time.Time") {
@@ -573,7 +593,7 @@ func (c *Ctx) heartBeatEveryBeat(ruleCreate, ruleClock string, ruleAfter ...stri
 						continue
 					}
 					for _, w := range writes {
-						if !dominates(w, clock) {
+						if w.Parent() == clock.Parent() && !dominates(w, clock) {
 							late = c.ipos(clock) + " (write at " + c.ipos(w) + ")"
 						}
 					}
